@@ -1,9 +1,12 @@
 // C26 — BTC coin selection conserves UTXO value (model_checking).
 //
 // (a) selector.go: bounded-exhaustive over sorted UTXO sequences x script kinds x (target, min-change, fee rate) through
-//     CoinSelector.Select / SimpleBnbSearch / SortedSearch.
+//
+//	CoinSelector.Select / SimpleBnbSearch / SortedSearch.
+//
 // (b) handler.go: mc.BFS over histories of <= 3 withdrawals on the production path (ImportOuterTransfer -> BTCHandler.
-//     MakeTransaction -> makeBtcTx -> chooseUtxos) in a world seeded through the production BTC deposit path.
+//
+//	MakeTransaction -> makeBtcTx -> chooseUtxos) in a world seeded through the production BTC deposit path.
 package main
 
 import (
@@ -37,7 +40,7 @@ func main() {
 	r.Assume("the vote router's quorum logic (C25) delivers the X->BTC message unchanged to BTCHandler.MakeTransaction",
 		"regtest proof of work and a one-transaction merkle block stand in for real Bitcoin blocks on the deposit path",
 		"MultiSign (signature collection, change output re-entering the unspent set) is outside the explored alphabet")
-	if r.NViolations() == 0 {
+	if r.NViolations() == 0 && only == "" {
 		r.Require("selector:select-returned", "selector:select-none", "selector:total-exact", "selector:total-with-change",
 			"handler:withdrawal-ok", "handler:withdrawal-rejected", "handler:total-exact", "handler:total-with-change")
 	}
